@@ -204,6 +204,9 @@ func OpenFooter(sr *io.SectionReader) (tocOffset int64, footerSize int64, rErr e
 // Unexported fields are populated and TOCEntry fields that were
 // implicit in the JSON are populated.
 func (r *Reader) initFields() error {
+	if r.toc == nil {
+		return fmt.Errorf("TOC JSON must be an object but got null")
+	}
 	r.m = make(map[string]*TOCEntry, len(r.toc.Entries))
 	r.chunks = make(map[string][]*TOCEntry)
 	var lastPath string
@@ -212,6 +215,9 @@ func (r *Reader) initFields() error {
 	var lastRegEnt *TOCEntry
 	var chunkTopIndex int
 	for i, ent := range r.toc.Entries {
+		if ent == nil {
+			return fmt.Errorf("entry %d of TOC JSON is null", i)
+		}
 		ent.Name = cleanEntryName(ent.Name)
 		switch ent.Type {
 		case "reg", "chunk":
